@@ -600,7 +600,7 @@ def dict_resolver(env):
 
             try:
                 co = codefind.find_code(*hierarchy, module=module or "__main__")
-            except (KeyError, ImportError, AttributeError):
+            except (KeyError, ImportError, AttributeError, TypeError, ValueError):
                 raise CodeNotFoundError(
                     f"Cannot find a function for the reference '{x}'."
                     " Try calling `ptera.refstring` on the function you want"
